@@ -231,7 +231,7 @@ Qed.
 
 Lemma inv_init : NoDup todo0 -> Inv (init1 todo0).
 Proof.
-  intros Nd. unfold init1.
+  intros Nd. unfold init1. rewrite frev_rev.
   assert (E : forall v, getb (fold_left (fun m v => zset m v true) todo0 zempty) v = true <-> In v todo0).
   { intros v. rewrite fold_set_true, getb_empty. split; [intros [H|H]; [auto|discriminate]|auto]. }
   constructor; cbn [w_nh w_anh w_todo w_cur w_proc].
